@@ -32,7 +32,7 @@ import (
 )
 
 func verdict(e *c06env.Env, s *c06env.Snap) string {
-	if v := c06env.CheckGraph(s); v != "" {
+	if v := c06env.CheckGraphVerdict(s); v != "" {
 		if os.Getenv("C06_DEBUG") != "" {
 			os.Stderr.WriteString(v + "\n")
 			c06env.DebugDump(s, func(l string) {
@@ -104,10 +104,12 @@ func exec(toks []string) (string, string) {
 		// the oracle's verdict class is part of the output: the model evaluates
 		// its own statement predicate (Model/C06Inv.lean) on its own state, so
 		// the Lean-side statement is compared with the oracle on every state.
+		// (the class printed here is the FIRST failing clause in the canonical order the model
+		// uses too; the oracle column prefers a failure that is not one of the known owner findings)
 		v := verdict(e, snap)
 		cls := "ok"
-		if strings.HasPrefix(v, "VIOL:") {
-			cls = strings.SplitN(v[5:], " ", 2)[0]
+		if first := c06env.CheckGraph(snap); strings.HasPrefix(first, "VIOL:") {
+			cls = strings.SplitN(first[5:], " ", 2)[0]
 		}
 		return "ok " + clip(full) + " inv=" + cls, v
 	case "prog":
